@@ -390,8 +390,19 @@ fn run_op(cache: &BlsCache, op: &Op) -> OpResult {
         }
         Op::Update(pairs) => {
             for (k, m) in pairs {
-                let k = *k as usize % NKEYS;
                 let m = *m as usize % NMSGS;
+                if *k as usize >= NKEYS {
+                    // a correct pairing for a key no verifier accepts (infinity, outside the
+                    // subgroup), computed elsewhere and handed over: a later hit on it must not
+                    // turn a rejection into an acceptance
+                    let key = key_of(*k);
+                    let mut aug = key.to_bytes().to_vec();
+                    aug.extend_from_slice(&p.msgs[m]);
+                    let gt = hash_to_g2(&aug).pair(&key);
+                    cache.update(&aug, gt);
+                    continue;
+                }
+                let k = *k as usize % NKEYS;
                 let mut aug = p.pks[k].to_bytes().to_vec();
                 aug.extend_from_slice(&p.msgs[m]);
                 // every other message: the pairing arrives through its byte encoding, as it does
@@ -865,7 +876,7 @@ fn gen_op(rng: &mut Rng, keyspace: usize, w: &[u64; 5]) -> Op {
         0 => Op::Verify(gen_query(rng, keyspace)),
         1 => {
             let n = rng.range(1, 3) as usize;
-            Op::Update(gen_pairs(rng, keyspace, n, false))
+            Op::Update({ let inv = rng.chance(1, 5); gen_pairs(rng, keyspace, n, inv) })
         }
         2 => {
             // mostly short; sometimes a long list, which repeats pairs on the small key spaces
@@ -988,7 +999,7 @@ impl Engine for C15 {
             _ => rng.range(2, 5) as usize,
         };
         let prefix: Vec<Op> = (0..nprefix)
-            .map(|_| if rng.chance(1, 2) { Op::Update(gen_pairs(rng, keyspace, 2, false)) } else { gen_op(rng, keyspace, &w) })
+            .map(|_| if rng.chance(1, 2) { Op::Update({ let inv = rng.chance(1, 6); gen_pairs(rng, keyspace, 2, inv) }) } else { gen_op(rng, keyspace, &w) })
             .collect();
         let mut threads = vec![];
         for _ in 0..nthreads {
